@@ -71,8 +71,9 @@ def ty(e):
 class SE:
     def __init__(self, fns, params, elide_timeout_ms=2000):
         self.fns, self.params = fns, params
-        self.assumes = []
-        self.results = []      # (property id, comment, pc, cond, line)
+        self.assumes = []      # ASSUME instructions, in program order (an assumption constrains only later assertions)
+        self.typefacts = []    # value ranges of the machine types of fresh variables (always valid)
+        self.results = []      # (property id, comment, pc, cond, line, func, class, number of assumes in effect)
         self.fresh = 0
         self.inputs = {}
         self.nwrap = 0
@@ -89,7 +90,7 @@ class SE:
         else:
             v = z3.Int(nm)
             lo, hi = trange(k)
-            self.assumes.append(z3.And(v >= lo, v <= hi))
+            self.typefacts.append(z3.And(v >= lo, v <= hi))
         self.inputs[nm] = v
         return v
 
@@ -97,6 +98,7 @@ class SE:
         lo, hi = trange(k)
         sv = z3.Solver()
         sv.set('timeout', self.elide_timeout_ms)
+        sv.add(self.typefacts)
         sv.add(self.assumes)
         sv.add(self.curpc)
         sv.add(z3.Or(r < lo, r > hi))
@@ -331,7 +333,7 @@ class SE:
                 c = self.ev(x['guard'], st)
                 sl = x.get('sourceLocation', {})
                 self.results.append((sl.get('propertyId', '?'), sl.get('comment', ''), pc, c,
-                                     sl.get('line', ''), sl.get('function', ''), sl.get('propertyClass', '')))
+                                     sl.get('line', ''), sl.get('function', ''), sl.get('propertyClass', ''), len(self.assumes)))
             elif op == 'GOTO':
                 g = self.ev(x['guard'], st) if 'guard' in x else z3.BoolVal(True)
                 tgt = idx[x['targets'][0]] if x['targets'][0] in idx else None
@@ -459,9 +461,10 @@ def work(check, unit_c, wd_dir, tier):
             raise Undecided('engine Z: unsupported construct in %s: %s' % (tag, e))
         queries = []
         prior = []
-        for n, (pid, comment, pc, cond, line, func, cls) in enumerate(se.results):
+        for n, (pid, comment, pc, cond, line, func, cls, nass) in enumerate(se.results):
             s = z3.Solver()
-            s.add(se.assumes)
+            s.add(se.typefacts)
+            s.add(se.assumes[:nass])
             s.add(prior)
             s.add(pc)
             s.add(z3.Not(cond))
@@ -480,7 +483,7 @@ def work(check, unit_c, wd_dir, tier):
         answers = list(pool.map(solve, queries))
     obls, vac = [], []
     total = 0.0
-    for (pid, comment, pc, cond, line, func, cls), (r, model, secs) in zip(se.results, answers):
+    for (pid, comment, pc, cond, line, func, cls, nass), (r, model, secs) in zip(se.results, answers):
         total += secs
         status = {'unsat': 'SUCCESS', 'sat': 'FAILURE', 'unknown': 'UNKNOWN'}[r]
         o = dict(name=pid, status=status, desc=comment, cls=cls or 'assertion', line=line, seconds=secs, func=func, model=None)
